@@ -182,10 +182,11 @@ pub fn gen_tokens(rng: &mut Rng) -> String {
     while let Some(c) = open.pop() {
         s.push_str(c);
     }
-    s.truncate(4096);
-    while !s.is_char_boundary(s.len()) {
-        s.pop();
+    let mut cut = s.len().min(4096);
+    while !s.is_char_boundary(cut) {
+        cut -= 1;
     }
+    s.truncate(cut);
     s
 }
 
